@@ -8,6 +8,8 @@ Functions under contract (real text): pandapower.converter.pypower.from_ppc:_bra
   * the line created for a ppc branch has r_ohm_per_km * length_km = BR_R * Z_N, x alike, 2 pi f c'*1e-9 * length = BR_B / Z_N,
     g'*1e-6 * length = BR_G / Z_N with Z_N = BASE_KV^2 / baseMVA -- the inverse of the per-unit conversion of _calc_line_parameter (C02), so
     that converting back reproduces BR_R, BR_X, BR_B.
+
+Added later: _from_ppc_gen gives the created ext_grid / gen the VG of its own ppc gen row (run_gen; drop_duplicates = first row per key).
 """
 from __future__ import annotations
 
